@@ -17,10 +17,12 @@ from __future__ import annotations
 
 import atexit
 import copy
+import hashlib
 import importlib
 import json
 import os
 import shutil
+import sys
 import tempfile
 
 from ..lib.common import Ctx, MachineryError, repo_python_path
@@ -42,11 +44,15 @@ MANIFEST = {
             "inputs that do not assign a group as a whole, given that no group key of the outcome holds a string; the witnesses that the dotted "
             "style lacks the group options (open finding, DESIGN section 7 row 9). The flat-list theorems (*_flat) additionally cover the "
             "signature rules for Optional / underscore parameters. The model is tied to the code by comparing, per generated field list (flat and "
-            "recursive with declared defaults), the four real parsers' action tables with the model's and every real parse result with the model's.",
+            "recursive with declared defaults), the four real parsers' action tables with the model's and every real parse result with the model's. "
+            "(C07_moved_required, C07_inner_required_source) the inner-parser style carries over the inner parser's required SET with the prefix, tied to "
+            "the regenerated AST facts of ActionParser._move_parser_actions; field lists with a class-typed member (required through "
+            "add_subclass_arguments: no flagged action) are compared on the real code only (tables incl. required sets, then inputs).",
     "level_note": "Trusted: Lean kernel; axioms propext/Quot.sound/Classical.choice only; the harness; the YAML loader as an oracle (every text that "
                   "occurs is loaded by jsonargparse's own load_value and handed to the model). In recursive lists every leaf has a class default and "
                   "keys of a defaults mapping name fields of the group. Types outside the six-type grammar, positionals, help/usage text and "
-                  "instantiate_classes are outside the model.",
+                  "instantiate_classes are outside the model. Class-typed members are outside the Lean tables (oracle on the real code only; "
+                  "the moved required set is tied by the extractor fact).",
 }
 
 STYLES = ["dotted", "dataclass", "class", "inner"]
@@ -127,6 +133,8 @@ def plain_kwargs(n):
 def build_four(key, fields):
     from jsonargparse import ActionConfigFile, ActionParser, ArgumentParser
 
+    if any(f["ty"] == "cls" for f in fields):
+        return build_four_cls(key, fields)
     nodes = as_nodes(fields)
     spec = [["dc", {"k": "group", "style": "dataclass", "whole": True, "fields": nodes, "cls": "DC1"}],
             ["pg", {"k": "group", "style": "class", "whole": True, "fields": nodes, "cls": "PG1"}]]
@@ -184,13 +192,16 @@ def unwire(v):
 
 
 # ---------------------------------------------------------------- inputs
-def gen_input(rng, key, fields):
+def gen_input(rng, key, fields, modname=None):
     """one input mix: {"mode": argv|string|object|env, "argv": [...], "env": {...}, "tree": {...}}"""
     mode = rng.choice(["argv", "argv", "argv", "string", "object", "env", "argvcfg"])
     inp = {"mode": mode, "argv": [], "env": {}, "tree": None}
     valid_bias = rng.random() < 0.6
 
     def raw_for(f, append=False):
+        if f["ty"] == "cls":
+            pl = cls_pools(f, modname)
+            return rng.choice(pl["good_raw"] if valid_bias or rng.random() < 0.4 else pl["bad_raw"])
         pool = RAW_APPEND if append else RAW[f["ty"]]
         if append and f["ty"] == "optListInt":
             pool = [x for x in RAW_APPEND if x != "null"]      # (`+=null` on Optional[List] lets the None member of the Union take over: not modelled)
@@ -201,6 +212,9 @@ def gen_input(rng, key, fields):
         return rng.choice(pool)
 
     def native_for(f):
+        if f["ty"] == "cls":
+            pl = cls_pools(f, modname)
+            return copy.deepcopy(rng.choice(pl["good_native"] if valid_bias or rng.random() < 0.4 else pl["bad_native"]))
         pool = NATIVE[f["ty"]]
         if valid_bias:
             pool = dict({"int": [1, -3, "2"], "str": ["hello", "1"], "bool": [True, False], "float": [1.5, 2], "optInt": [None, 4], "listInt": [[1, 2], []]}, **GOOD_NATIVE)[f["ty"]]
@@ -567,6 +581,172 @@ def run_group(ctx, key, fields, inputs, parsers, out, stats, origin):
                         with open(os.environ["C07_DEBUG"], "a") as f:
                             f.write(json.dumps({"d": d, "style": st, "input": inp, "key": key, "fields": fields, "model": out[pos - 1],
                                                 "real": list(results[st])}, default=repr) + "\n")
+
+
+# ---------------------------------------------------------------- field lists with a CLASS-TYPED member
+# A member whose type is a class (an abstract base with 1-2 subclasses), required (no default) or Optional[...] = None.  In the dotted and the
+# inner-parser style such a member is declared either with add_argument(type=Base, required=True) (the action is flagged `_required`) or with
+# add_subclass_arguments(Base, key, required=...) ("via": "subclass_group": the key is written into parser.required_args by
+# _create_group_if_requested and NO action is flagged) - the inner parser's `required_args` and the flags of its actions then differ, and
+# ActionParser._move_parser_actions must carry over the SET (C07_moved_required, tie C07_inner_required_source).  The Lean tables have no
+# class type: these lists run on the real code only (tables of the four parsers incl. required sets, then the oracle on inputs that give,
+# omit and null the member).  The module name is a function of the source text, so replays and corpus inputs can name the classes.
+def gen_cls_fields(rng, counter=[0]):
+    leaves = [f for f in gen_fields(rng) if f["ty"] in ("int", "str", "bool", "float", "optInt", "listInt")][:rng.randint(0, 2)]
+    used = {f["name"] for f in leaves}
+    out = list(leaves)
+    for name in rng.sample([n for n in NAME_POOL + ["cal", "opt"] if n not in used], rng.randint(1, 2)):
+        counter[0] += 1
+        b = "Base%d" % counter[0]
+        classes = []
+        for i in range(rng.randint(1, 2)):
+            ps = []
+            for pn in rng.sample(["p", "q", "r"], rng.randint(0, 2)):
+                ty = rng.choice(["int", "str"])
+                n = {"k": "leaf", "ty": ty, "req": rng.random() < 0.25}
+                if not n["req"]:
+                    n["def"] = {"int": 2, "str": "s0"}[ty]
+                ps.append([pn, n])
+            ps.sort(key=lambda kv: 0 if kv[1]["req"] else 1)
+            classes.append(["Sub%d%s" % (counter[0], "ab"[i]), ps])
+        node = {"k": "class", "req": rng.random() < 0.7, "base": b, "classes": classes, "concrete": False}
+        if rng.random() < 0.7:
+            node["via"] = "subclass_group"
+        f = {"name": name, "ty": "cls", "node": node}
+        if not node["req"]:
+            f["def"] = None
+        out.append(f)
+    out.sort(key=lambda f: 1 if "def" in f else 0)
+    return out
+
+
+def cls_nodes(fields):
+    out = []
+    for f in fields:
+        if f["ty"] == "cls":
+            out.append([f["name"], f["node"]])
+        else:
+            out.extend(as_nodes([f]))
+    return out
+
+
+def cls_source(fields):
+    nodes = cls_nodes(fields)
+    out = []
+    for _, n in nodes:
+        if n["k"] == "class":
+            base.emit_node(n, out)          # the base and its subclasses: once
+    lines = ["@dataclass", "class DC1:"]
+    for name, n in nodes:
+        lines.append("    %s: %s%s" % (name, base.ty_expr(n), base.default_code(n, True)))
+    out.append("\n".join(lines))
+    out.append(base.plain_class("PG1", None, nodes))
+    return "import abc\nfrom dataclasses import dataclass, field\nfrom typing import Dict, List, Literal, Optional, Tuple\n\n\n" + "\n\n\n".join(out) + "\n"
+
+
+def cls_modname(fields):
+    return "c07m_" + hashlib.sha1(cls_source(fields).encode()).hexdigest()[:12]
+
+
+def cls_module(fields):
+    src = cls_source(fields)
+    modname = cls_modname(fields)
+    if modname not in sys.modules:
+        with open(os.path.join(base.gen_dir(), modname + ".py"), "w") as f:
+            f.write(src)
+        importlib.invalidate_caches()
+    return importlib.import_module(modname), src
+
+
+def cls_pools(f, modname):
+    node = f["node"]
+    good_n, bad_n = [], [3, "nomod.Nothing", True, {"init_args": {"p": 1}}]
+    for cname, ps in node["classes"]:
+        path = "%s.%s" % (modname, cname)
+        ia = {pn: ({"int": 5, "str": "w"}[n["ty"]]) for pn, n in ps}
+        req = {pn: v for pn, v in ia.items() if dict(ps)[pn]["req"]}
+        if not req:
+            good_n += [path, {"class_path": path}]
+        else:
+            bad_n += [path, {"class_path": path}]              # a required parameter of the class is missing
+        good_n += [{"class_path": path, "init_args": ia}, {"class_path": path, "init_args": req}]
+        bad_n += [{"class_path": path, "init_args": dict(ia, zz9=1)}]
+    if not node["req"]:
+        good_n.append(None)
+    else:
+        bad_n.append(None)
+    as_raw = lambda v: v if isinstance(v, str) else json.dumps(v)
+    return {"good_native": good_n, "bad_native": bad_n, "good_raw": [as_raw(v) for v in good_n], "bad_raw": [as_raw(v) for v in bad_n]}
+
+
+def build_four_cls(key, fields):
+    from jsonargparse import ActionConfigFile, ActionParser, ArgumentParser
+
+    nodes = cls_nodes(fields)
+    mod, src = cls_module(fields)
+
+    def plain(parser, prefix):
+        for name, n in nodes:
+            if n["k"] == "class" and n.get("via") == "subclass_group":
+                parser.add_subclass_arguments(getattr(mod, n["base"]), prefix + name, required=bool(n["req"]))
+            elif n["k"] == "class":
+                kw = {"required": True} if n["req"] else {"default": None}
+                parser.add_argument("--" + prefix + name, type=base.py_type(n, mod), **kw)
+            else:
+                parser.add_argument("--" + prefix + name, type=base.py_type(n, mod), **plain_kwargs(n))
+
+    parsers = {}
+    for st in STYLES:
+        p = ArgumentParser(exit_on_error=False, env_prefix="APP", default_env=False)
+        p.add_argument("--cfg", action=ActionConfigFile)
+        if st == "dotted":
+            plain(p, key + ".")
+        elif st == "dataclass":
+            p.add_argument("--" + key, type=mod.DC1)
+        elif st == "class":
+            p.add_class_arguments(mod.PG1, key)
+        else:
+            inner = ArgumentParser(exit_on_error=False)
+            plain(inner, "")
+            p.add_argument("--" + key, action=ActionParser(parser=inner))
+        parsers[st] = p
+    return parsers, src
+
+
+def cls_inputs(rng, key, fields, n):
+    """generated inputs plus, for every class-typed member, the inputs that omit it, null it and give only the other members"""
+    modname = cls_modname(fields)
+    inputs = [{"mode": "argv", "argv": [], "env": {}, "tree": None}, {"mode": "object", "argv": [], "env": {}, "tree": {}}]
+    others = {}
+    for f in fields:
+        if f["ty"] != "cls":
+            others[f["name"]] = {"int": 1, "str": "hello", "bool": True, "float": 1.5, "optInt": 4, "listInt": [1, 2]}[f["ty"]]
+    for f in fields:
+        if f["ty"] != "cls":
+            continue
+        good = cls_pools(f, modname)["good_native"]
+        rest = dict(others)
+        for g in fields:
+            if g["ty"] == "cls" and g is not f:
+                rest[g["name"]] = copy.deepcopy(cls_pools(g, modname)["good_native"][-1] if g["node"]["req"] else cls_pools(g, modname)["good_native"][0])
+        inputs.append({"mode": "object", "argv": [], "env": {}, "tree": {key: dict(rest)}})                       # the member omitted
+        inputs.append({"mode": "string", "argv": [], "env": {}, "tree": {key: dict(rest, **{f["name"]: None})}})   # the member null
+        inputs.append({"mode": "argv", "argv": ["--%s.%s=%s" % (key, k, v if isinstance(v, str) else json.dumps(v)) for k, v in rest.items()],
+                       "env": {}, "tree": None})
+        inputs.append({"mode": "object", "argv": [], "env": {}, "tree": {key: dict(rest, **{f["name"]: copy.deepcopy(good[0])})}})   # all given
+    inputs.extend(gen_input(rng, key, fields, modname) for _ in range(n))
+    return inputs
+
+
+def run_cls_groups(ctx, groups, stats, origin):
+    for key, fields, inputs in groups:
+        try:
+            parsers, _ = build_four_cls(key, fields)
+        except Exception as ex:  # noqa: BLE001
+            raise MachineryError("the four parsers could not be built for %r: %r" % (fields, ex))
+        ctx.hist("class_member", "/".join(sorted(("required" if f["node"]["req"] else "optional") + ("-subclass_group" if f["node"].get("via") else "-argument")
+                                               for f in fields if f["ty"] == "cls")))
+        run_group(ctx, key, fields, inputs, parsers, None, stats, origin)
 
 
 # ---------------------------------------------------------------- recursive field lists with declared group defaults
@@ -961,7 +1141,9 @@ def run(ctx: Ctx):
                 "required, non-mapping group); compared: as_dict()/ArgumentError and dump text across the four styles and with the model; "
                 "(b) recursive field lists (sub-groups to depth 3, never the last field) with group defaults declared at the root (default instance / default "
                 "dict) and through the default instances of dataclass-typed parameters, inputs incl. sub-group options and nested trees; both through "
-                "the model (tables and results) and the oracle; non-trivial = an input accepted with a non-empty group; distinct by canonical JSON of (key, fields, input)")
+                "the model (tables and results) and the oracle; (c) field lists with 1-2 class-typed members (abstract base, 1-2 subclasses; required or Optional; declared in the "
+                "dotted / inner styles with add_subclass_arguments(required=...) or add_argument(type=Base)) on the real code: tables of the four parsers, inputs giving / "
+                "omitting / nulling the member; non-trivial = an input accepted with a non-empty group; distinct by canonical JSON of (key, fields, input)")
     ctx.assumptions = [
         "recursive field lists: every leaf has a class default (a default instance needs one); declared defaults are given for the root group and "
         "through the default instances of dataclass-typed parameters; a root default instance is built with the sub-groups' own values merged in",
@@ -969,7 +1151,7 @@ def run(ctx: Ctx):
         "field names do not start with '_'; an Optional[...] field without default is stated as default=None on the plain arguments of the dotted / inner styles",
         "the order of parameters is the same in the four declarations (parameters without default first)",
     ]
-    ctx.lean_build(extractors=["set_defaults_loop", "signature_optional"])
+    ctx.lean_build(extractors=["set_defaults_loop", "signature_optional", "move_parser_required"])
     stats = {"violations": 0, "known": 0, "disagree": 0}
     from ..lib import corpus as corpus_mod
 
@@ -977,6 +1159,19 @@ def run(ctx: Ctx):
     corp = [(c["key"], c["fields"], c["inputs"]) for c in corpus_all if "fields" in c]
     if corp:
         run_groups(ctx, corp, stats, "corpus")
+    # field lists with a class-typed member (real code only)
+    corp_cls = [(c["key"], c["clsfields"], c["inputs"]) for c in corpus_all if "clsfields" in c]
+    if corp_cls:
+        run_cls_groups(ctx, corp_cls, stats, "corpus")
+    cls_groups = []
+    for gi in range(ctx.budget(12, 150)):
+        key = ctx.rng.choice(KEY_POOL)
+        fields = gen_cls_fields(ctx.rng)
+        cls_groups.append((key, fields, cls_inputs(ctx.rng, key, fields, ctx.budget(6, 16))))
+        if gi == 0:
+            ctx.sample({"class_member": {"key": key, "fields": fields}})
+    run_cls_groups(ctx, cls_groups, stats, "generated")
+    ctx.extra["class_member_field_lists"] = len(corp_cls) + len(cls_groups)
     n_ext = 0
     corp_ext = [(c["ext"], c["inputs"]) for c in corpus_all if "ext" in c]
     if corp_ext:
